@@ -239,7 +239,7 @@ func run(c Case) (pbt.Outcome, error) {
 		mu.Lock()
 		n := batches
 		mu.Unlock()
-		return sink.WaitCount(n, 5*time.Second)
+		return sink.WaitAll(n)
 	}
 	if c.PreAge > 0 {
 		ac := r.AllocateCounter("age", nil)
@@ -252,7 +252,7 @@ func run(c Case) (pbt.Outcome, error) {
 				// packet size is minimal and the reporter's own metrics need packets of their own);
 				// wait until the worker has emitted them and the sink has received everything
 				// emitted, so that only a few hundred small datagrams can ever sit in the socket buffer
-				if !sink.WaitCount(i+1, 10*time.Second) || !syncSink() {
+				if !sink.WaitAll(i+1) || !syncSink() {
 					return out, fmt.Errorf("harness: sink did not keep up with the pre-ageing datagrams (machine too busy?)")
 				}
 			}
@@ -359,7 +359,7 @@ func run(c Case) (pbt.Outcome, error) {
 		mu.Lock()
 		n := batches
 		mu.Unlock()
-		errs.Addf("%d batches were handed to the thrift client but only %d datagrams arrived within 5s (a batch the transport refused, or loss)", n, sink.Count())
+		errs.Addf("%d batches were handed to the thrift client but only %d datagrams arrived within 30s (a batch the transport refused, or loss)", n, sink.Count())
 	}
 	grams := sink.Datagrams()
 
@@ -459,9 +459,9 @@ type OutCase struct {
 	NameLen int   `json:"nameLen"`
 	NTags   int   `json:"ntags"`
 	Hist    bool  `json:"hist"`
-	Up1     []int `json:"up1"`  // metrics per burst while the destination is up (flush after each burst)
-	Down    []int `json:"down"` // bursts while it is gone
-	Up2     []int `json:"up2"`  // bursts after it came back
+	Up1     []int `json:"up1"`     // metrics per burst while the destination is up (flush after each burst)
+	Down    []int `json:"down"`    // bursts while it is gone
+	Up2     []int `json:"up2"`     // bursts after it came back
 	NoFlush bool  `json:"noflush"` // no explicit Flush between bursts while down: packets are cut by size only
 }
 
@@ -561,7 +561,7 @@ func runOut(c OutCase) (pbt.Outcome, error) {
 	for _, n := range c.Up1 {
 		burst(n, "up1", true)
 	}
-	if !sink.WaitCount(nb(), 5*time.Second) {
+	if !sink.WaitAll(nb()) {
 		errs.Addf("destination up: %d batches emitted, %d datagrams arrived", nb(), sink.Count())
 	}
 	first := sink.Datagrams()
